@@ -78,6 +78,7 @@ func C15(ctx *core.Ctx, r *core.Report) {
 		return
 	}
 	clo := wv.AnonFuncs[0]
+	escaperNotBypassed(ctx, r)
 	kinds := scalarValueKinds(ctx, r)
 	cases := formatCases(clo)
 	r.Count("writeValue_format_cases", len(cases))
@@ -519,6 +520,18 @@ func c15Names(ctx *core.Ctx, r *core.Report) {
 	}
 	r.Ob("qualification-rule", "nodeutil.JSONWtr.ident", ctx.Pos(ident.Pos()), nOrig == 2 && nRoot == 0 && nIdent >= 1,
 		fmt.Sprintf("member names must be the schema identifier, qualified by comparing OriginalModule of the node and of its parent (found %d OriginalModule, %d RootModule, %d Ident calls)", nOrig, nRoot, nIdent))
+	// which two nodes are compared: the node of this path element and the node of the
+	// DATA parent (p.Parent.Meta). The schema parent (p.Meta.Parent()) is another thing:
+	// for a node inside a choice it is the case, whose module can differ from that of the
+	// enclosing data node, and RFC 7951 qualifies relative to the enclosing member.
+	chains := map[string]bool{}
+	for _, c := range core.CallSites(ident) {
+		if cal := core.StaticCallee(c); cal != nil && core.FnName(cal) == "meta.OriginalModule" {
+			chains[paramFieldChain(c.Common().Args[0])] = true
+		}
+	}
+	r.Ob("qualification-rule", "nodeutil.JSONWtr.ident/compares-node-with-data-parent", ctx.Pos(ident.Pos()), chains["p.Meta"] && chains["p.Parent.Meta"] && len(chains) == 2,
+		fmt.Sprintf("the module of a member is compared with something other than the module of the enclosing data node: OriginalModule is taken of %v, expected of p.Meta and p.Parent.Meta — with the schema parent, nodes sitting in a case contributed by another module lose or gain their module prefix", sortedBoolKeys(chains)))
 	// every writeIdent argument comes from ident() (possibly through beginList/beginContainer parameters)
 	n := 0
 	for _, f := range ctx.RepoFuncs() {
@@ -557,4 +570,46 @@ func c15Names(ctx *core.Ctx, r *core.Report) {
 		}
 	}
 	r.Floor("names-from-schema", n, 3)
+}
+
+// paramFieldChain renders a value that is a chain of field loads from a
+// parameter as "p.F.G"; anything else (calls, phis) as its SSA description.
+func paramFieldChain(v ssa.Value) string {
+	switch x := v.(type) {
+	case *ssa.Parameter:
+		return x.Name()
+	case *ssa.MakeInterface:
+		return paramFieldChain(x.X)
+	case *ssa.ChangeInterface:
+		return paramFieldChain(x.X)
+	case *ssa.UnOp:
+		if x.Op == token.MUL {
+			if fa, ok := x.X.(*ssa.FieldAddr); ok {
+				st := core.Deref(fa.X.Type()).Underlying().(*types.Struct)
+				return paramFieldChain(fa.X) + "." + st.Field(fa.Field).Name()
+			}
+		}
+	case *ssa.Field:
+		st := x.X.Type().Underlying().(*types.Struct)
+		return paramFieldChain(x.X) + "." + st.Field(x.Field).Name()
+	case *ssa.Call:
+		if x.Common().IsInvoke() {
+			return paramFieldChain(x.Common().Value) + "." + x.Common().Method.Name() + "()"
+		}
+		if cal := x.Common().StaticCallee(); cal != nil && len(x.Common().Args) > 0 {
+			return cal.Name() + "(" + paramFieldChain(x.Common().Args[0]) + ")"
+		}
+	case *ssa.TypeAssert:
+		return paramFieldChain(x.X)
+	}
+	return v.Name()
+}
+
+func sortedBoolKeys(m map[string]bool) []string {
+	var out []string
+	for k := range m {
+		out = append(out, k)
+	}
+	sort.Strings(out)
+	return out
 }
